@@ -85,6 +85,7 @@ type Obligation struct {
 	Solver string
 	Secs   float64
 	Detail string
+	Agree  int // number of solvers that answered unsat (thorough tier asks for two)
 }
 
 type structInfo struct {
